@@ -49,6 +49,10 @@ def cases(tier, seed):
             cc["alg"] = alg
             if world.feasible(cc):
                 out.append((sc + "/adversary", cc))
+    if tier == "thorough":
+        out = [(sc, dict(c, budget_override=dict(
+            common.thorough_override(c, i), **c.get("budget_override", {}))))
+            for i, (sc, c) in enumerate(out)]
     return common.rotate(out, seed)
 
 
